@@ -1,6 +1,6 @@
 P = dict(
     harness='c10_threads.cpp',
-    variants=dict(quick=['tsan', 'asan'], thorough=['tsan', 'asan']),
+    variants=dict(quick=['tsan', 'asan', 'tsan-noexc'], thorough=['tsan', 'asan', 'tsan-noexc']),
     max_procs=4,
     stall_s=120,
     confirm_s=60,
